@@ -157,6 +157,27 @@ def build():
     one(r"if\s+let\s+Some\(\(mut\s+req,\s*_\)\)\s*=\s*query_vec\.try_remove\(index\)\s*\{\s*_\s*=\s*req\.sender\.send\(Err\(err\)\);\s*\}", irq,
         "insert_req takes the request out again when it cannot be converted")
 
+    # ---- the two octet length prefix of the stream framing (base/message_builder.rs StreamTarget)
+    mbs = strip_comments(read("src/base/message_builder.rs"))
+    us = fn_body(mbs, "update_shim")
+    if re.search(r"match\s+u16::try_from\(self\.target\.as_ref\(\)\.len\(\)\s*-\s*2\)\s*\{\s*Ok\(len\)\s*=>\s*\{[^{}]*copy_from_slice\(&len\.to_be_bytes\(\)\);\s*Ok\(\(\)\)\s*\}\s*Err\(_\)\s*=>\s*Err\(ShortBuf\),?\s*\}", us):
+        maxlen = 65535
+    else:
+        m = re.search(r"if\s+len\s*(>=|>)\s*(?:Self::)?(\w+|" + NUMBER[1:-1] + r")\s*\{\s*return\s+Err\(ShortBuf\);", us)
+        if not m:
+            raise GenError("StreamTarget::update_shim: cannot tell the largest message it accepts")
+        lim = m.group(2)
+        if not re.fullmatch(NUMBER[1:-1], lim):
+            mm = re.search(r"const\s+" + re.escape(lim) + r":\s*usize\s*=\s*" + NUMBER + r"\s*;", mbs)
+            if not mm:
+                raise GenError("StreamTarget::update_shim: limit constant %s not found" % lim)
+            lim = mm.group(1)
+        maxlen = num(lim) - (1 if m.group(1) == ">=" else 0)
+    defs.append(("stream_max_message_len", "N", "%d%%N" % maxlen))
+    cq = fn_body(st, "convert_query")
+    if len(re.findall(r"\.map_err\(\|_\|\s*Error::StreamLongMessage\)\?", cq)) != 2:
+        raise GenError("convert_query: a message that does not fit the framing must fail with StreamLongMessage")
+
     # ---- stream::Config response timeouts
     m = one(r"const\s+RESPONSE_TIMEOUT:\s*DefMinMax<Duration>\s*=\s*DefMinMax::new\(\s*([^,]+),\s*([^,]+),\s*([^,]+),?\s*\)", st, "stream RESPONSE_TIMEOUT")
     defs.append(("stream_timeout_default_ms", "N", "%d%%N" % dur(m.group(1), "RESPONSE_TIMEOUT default")))
@@ -269,10 +290,13 @@ def build():
     defs.append(("dgram_skip_if_not_answer", "bool", "true" if m.group(1) == "!" else "false"))
     one(r"return\s+Ok\(answer\.octets_into\(\)\);\s*\}\s*\}\s*Err\(QueryError::timeout\(\)\.into\(\)\)", hr, "dgram result")
     one(r"request\.header_mut\(\)\.set_random_id\(\);", hr, "dgram picks a fresh random ID per attempt")
-    m = one(r"const\s+MAX_RETRIES:\s*DefMinMax<u8>\s*=\s*DefMinMax::new\(\s*" + NUMBER + r"\s*,\s*" + NUMBER + r"\s*,\s*" + NUMBER + r"\s*\)", dg,
+    U8 = r"(0x[0-9A-Fa-f_]+|\d[\d_]*|u8::MAX|u8::MIN)"
+    def u8v(t):
+        return 255 if t == "u8::MAX" else 0 if t == "u8::MIN" else num(t)
+    m = one(r"const\s+MAX_RETRIES:\s*DefMinMax<u8>\s*=\s*DefMinMax::new\(\s*" + U8 + r"\s*,\s*" + U8 + r"\s*,\s*" + U8 + r"\s*\)", dg,
             "dgram MAX_RETRIES")
-    defs.append(("dgram_retries_default", "N", "%d%%N" % num(m.group(1))))
-    defs.append(("dgram_retries_max", "N", "%d%%N" % num(m.group(3))))
+    defs.append(("dgram_retries_default", "N", "%d%%N" % u8v(m.group(1))))
+    defs.append(("dgram_retries_max", "N", "%d%%N" % u8v(m.group(3))))
     m = one(r"const\s+READ_TIMEOUT:\s*DefMinMax<Duration>\s*=\s*DefMinMax::new\(\s*([^,]+),\s*([^,]+),\s*([^,]+),?\s*\)", dg, "dgram READ_TIMEOUT")
     defs.append(("dgram_timeout_default_ms", "N", "%d%%N" % dur(m.group(1), "READ_TIMEOUT default")))
     defs.append(("dgram_timeout_min_ms", "N", "%d%%N" % dur(m.group(2), "READ_TIMEOUT min")))
